@@ -27,7 +27,9 @@ def judge(module, records, constants=None, chunk=20000):
             r = tlc.run(module, cfg, workers=8, env_extra={'RECS': fn}, tag='BAD', timeout=3000,
                         extra_args=['-continue'])
         finally:
-            os.replace(fn, os.path.join(d, 'last-%s.json' % module))     # kept for diagnosis (overwritten each time)
+            os.replace(fn, os.path.join(d, 'last-%s.json' % module))     # kept for diagnosis / bin/selftest (overwritten each time)
+            with open(os.path.join(d, 'lastcfg-%s.json' % module), 'w') as fh:
+                json.dump(constants, fh)
         if (r.error and not r.violation) or r.generated < len(part):
             import shutil
             shutil.copy(os.path.join(d, 'last-%s.json' % module), os.path.join(d, 'failed-%s.json' % module))
